@@ -62,6 +62,7 @@ let handle line = match parse line with
   | [A "mul"; I n] -> fin (!cur, OkC (c_mul !cur (nat_of_int n)))
   | [A "imul"; I n] -> fin (c_imul !cur (nat_of_int n), OkU)
   | [A "iter"] -> show (L (List.map vop (iter_ops !cur.cycles)))
+  | [A "reduce"] -> show (L (List.map (fun cy -> L (List.map vop cy)) (reduce !cur)))
   | [A "riter"] -> show (L (List.map vop (riter_ops !cur.cycles)))
   | _ -> "BADCMD"
 
